@@ -499,6 +499,10 @@ class Real(PackedOps, RandOps):
         m = self.m(pos[0])
         pix = np.array([int(t) for t in split_list(kv.get('pix', '_'))], dtype=np.int64)
         bits = [int(t) for t in split_list(kv.get('bits', '_'))]
+        if kv.get('via') == 'pos':
+            # check_bits_pos at the pixel centres (positions -> pixels is hpgeom's, trusted)
+            lon, lat = hpg.pixel_to_angle(m.nside_sparse, pix, nest=True, lonlat=True)
+            return enc_bits(m.check_bits_pos(lon, lat, bits, lonlat=True))
         return enc_bits(m.check_bits_pix(pix, bits))
 
     def op_copy(self, pos, kv):
@@ -644,7 +648,7 @@ class Real(PackedOps, RandOps):
                 sp = np.array(raw).ravel()
             if hdr.get('BITPACK', False):
                 sp = np.unpackbits(sp.astype(np.uint8), bitorder='little').astype(bool)
-            elif isinstance(hdr.get('SENTINEL'), (bool, np.bool_)):
+            elif isinstance(hdr.get('SENTINEL'), (bool, np.bool_)) and sp.dtype.fields is None:
                 sp = sp.astype(bool)
             elif hdr.get('WIDEMASK', False):
                 sp = sp.reshape((-1, hdr['WWIDTH'])).astype(np.uint8)
